@@ -202,6 +202,9 @@ def validate_trace(module, cfg, trace_path, timeout=900, heap="3g", env_extra=No
         m = _tlc_value.match(line)
         if m and m.group(1) == "REJECTED":
             rej = json.loads(json.loads(m.group(2)))
+        m = re.match(r'^<<"AGREE", (\d+), (\d+)>>$', line)
+        if m:   # outcomes equal to the code-shaped reference model / outcomes judged (contract-level validation)
+            res.agree = (int(m.group(1)), int(m.group(2)))
     if p.returncode == 124:
         raise ToolError(f"TLC timed out validating {trace_path}")
     if rej is not None:
